@@ -9,7 +9,9 @@ RULE = ("K: (a) `_reversible_slice_boundaries(T,k)` for EVERY 1<=k<=T<=Tmax (40 
         "strictly increasing) is evaluated on the implementation's own output. (b) `fdtdx.run_fdtd` on generated tiny "
         "scenes (3-8 cells per axis; periodic / PEC / PMC / PML faces; dipole or plane source with a random on/off "
         "switch; field + energy detectors with random switches; a material block that always carries a magnetic conductivity "
-        "in one scene and an electric conductivity in another; fresh or dirty start container) under gradient_config "
+        "in one scene and an electric conductivity in another; an accumulating PhasorDetector in every scene; start container "
+        "fresh, dirty (random content) or - always once, with all strategies - USED (the arrays returned by a previous recorded "
+        "run of the same configuration)) under gradient_config "
         "None, checkpointed(n) for random n, reversible(c) for c in {0, random, T-1} and the rejected c=T, and "
         "stopping_condition+gradient: final step count, the sequence of step indices handed to `forward` (traced), the "
         "arguments of `_reversible_slice_boundaries`, and the `max_steps` of every while loop are compared exactly with "
@@ -198,7 +200,11 @@ def run_impl(sc, grad, x64=True, start="fresh", stopping=None):
     j = J(x64)
     jax, fdtdx = j["jax"], j["fdtdx"]
     o, a, cfg = build(sc, grad, x64)
-    if start != "fresh":
+    if start == "used":          # an already-used container: the arrays returned by a previous recorded run of this scene
+        _, a = fdtdx.run_fdtd(a, o, cfg, jax.random.PRNGKey(2), stopping_condition=stopping, show_progress=False)
+        jax.block_until_ready(a.fields.E)
+        jax.effects_barrier()
+    elif start != "fresh":
         a = dirty(j, a, int(start))
     del LOG[:]
     SPY["bounds"], SPY["max_steps"] = [], []
@@ -233,6 +239,8 @@ def gen_scene(rng, Tmax, i):
     T = rng.randint(3, Tmax)
     dets = [{"kind": "field", "switch": gen_switch(rng, T), "reduce": rng.chance(0.3)},
             {"kind": "energy", "switch": gen_switch(rng, T)}]
+    # an accumulating detector (state + sample): its output shows whatever a strategy failed to zero on entry
+    dets.append({"kind": "phasor", "switch": gen_switch(rng, T), "reduce": rng.chance(0.5)})
     if rng.chance(0.4):
         dets.append({"kind": "poynting", "switch": gen_switch(rng, T)})
     return {"shape": shape, "T": T, "bound": bound, "src": rng.choice(["dipole", "dipole", "plane"]),
@@ -303,7 +311,7 @@ def check_run(ctx, sc, g, start, ref, idx):
                                                             for i in range(g["c"] + 2))
     ctx.case(sample={"op": "run", **case, "model": rep} if idx == 1 else None,
              nontrivial=("run", json.dumps(sc, sort_keys=True), json.dumps(g, sort_keys=True), start),
-             op="run_fdtd", method=g["method"], bound=sc["bound"], start="fresh" if start == "fresh" else "dirty",
+             op="run_fdtd", method=g["method"], bound=sc["bound"], start=start if start in ("fresh", "used") else "dirty",
              src=sc["src"], halfway_boundary=half,
              conductivity="magnetic" if sc.get("sigma_m") else "electric" if sc.get("sigma_e") else "none")
     ctx.expect_equal("run", case, impl, rep)
@@ -383,6 +391,7 @@ def run(ctx):
     # (b) run_fdtd under every strategy
     n_scenes = ctx.scale(3, 16)
     idx = 0
+    used_done = False
     for i in range(n_scenes):
         tm[f"scene{i}_at_s"] = round(time.time() - t1, 1)
         # one short run per quick pass, so that c = T-1 (all slices of length 1) is affordable
@@ -393,7 +402,12 @@ def run(ctx):
             sc["sigma_m"] = float(ctx.rng.choice([1e9, 3e9]))
         elif i % 3 == 1:
             sc["sigma_e"] = float(ctx.rng.choice([1e5, 3e4]))
-        start = "fresh" if i % 2 == 0 else str(ctx.rng.randint(1, 10 ** 6))
+        # start container: the first non-PML scene (all strategies run there) starts from a USED container (arrays returned by
+        # a previous recorded run of the same configuration); the others alternate dirty (random content) / fresh
+        if not used_done and sc["bound"] != "pml":
+            start, used_done = "used", True
+        else:
+            start = str(ctx.rng.randint(1, 10 ** 6)) if i % 2 == 1 else "fresh"
         ref = check_run(ctx, sc, {"method": "none"}, start, None, idx)
         strategies = gen_strategies(ctx.rng, sc["T"], ctx.thorough)
         if sc["bound"] == "pml" and not ctx.thorough:      # PML scenes trace slowly: quick keeps the one strategy whose
@@ -430,9 +444,10 @@ def search(ctx, hints):
     for T in (2, 3, 4, 5, 7, 10):
         for bound, lossy in (("periodic", {"sigma_m": 1e9}), ("pec", {"sigma_e": 1e5}), ("periodic", {})):
             sc = {"shape": [3, 3, 4], "T": T, "bound": bound, "src": "dipole", "pol": 2, "src_switch": None,
-                  "dets": [{"kind": "field", "switch": None}, {"kind": "energy", "switch": {"interval": 2}}],
+                  "dets": [{"kind": "field", "switch": None}, {"kind": "energy", "switch": {"interval": 2}},
+                           {"kind": "phasor", "switch": None}],
                   "spp": 4.0, "eps": None, **lossy}
-            for start in ("fresh", "17"):
+            for start in ("fresh", "used", "17"):
                 t0, s0, _, _ = run_impl(sc, {"method": "none"}, start=start)
                 strategies = [{"method": "reversible", "c": c} for c in range(0, T)]
                 strategies += [{"method": "checkpointed", "n": n} for n in (1, 2, T)]
